@@ -185,6 +185,64 @@ def return_blocks(fn):
     return [i for i, b in enumerate(fn.blocks) if b["term"]["k"] == "return" and not b["cleanup"]]
 
 
+class MustCall:
+    """must-pass-through with wrapper summaries: `holds(fn)` iff every path from fn's entry to a normal return passes a call whose (resolved) callee
+    satisfies `pred(path)` or is itself a workspace function for which `holds` is true (depth-bounded, cycles count as False).
+    `escaping(fn)` lists the return blocks that can be reached without such a call."""
+
+    def __init__(self, facts, pred, depth=4):
+        self.fx = facts
+        self.pred = pred
+        self.depth = depth
+        self.memo = {}
+
+    def call_blocks(self, fn, depth=None, stack=()):
+        depth = self.depth if depth is None else depth
+        out = []
+        for bi, t in calls(fn):
+            p, fr = callee(t)
+            if p is None:
+                continue
+            if self.pred(p):
+                out.append(bi)
+                continue
+            gid = fr.get("rid") or fr.get("id")
+            g = self.fx.fns.get(gid)
+            if g is not None and g.blocks and depth > 0 and gid not in stack and self.holds(g, depth - 1, stack + (fn.id,)):
+                out.append(bi)
+        return out
+
+    @staticmethod
+    def error_exit_blocks(fn):
+        """blocks that build the error result: `?` (FromResidual::from_residual) or `_0 = Err(..)`; paths through them are not success returns"""
+        out = set()
+        for bi, t in calls(fn):
+            p = callee(t)[0]
+            if p and "FromResidual" in p and p.endswith("::from_residual"):
+                out.add(bi)
+        for bi, si, st in stmts(fn):
+            if st["k"] == "assign" and st["dst"].get("l") == 0 and not st["dst"].get("p") and st["rv"].get("k") == "agg" and \
+                    str(st["rv"].get("variant", "")) in ("Err", "1") and "Result" in str(st["rv"].get("adt", "")):
+                out.add(bi)
+        return out
+
+    def escaping(self, fn, depth=None, stack=(), starts=(0,)):
+        through = set(self.call_blocks(fn, depth, stack)) | self.error_exit_blocks(fn)
+        live = set()
+        for st in starts:
+            if st not in through:
+                live |= reachable(fn, st, removed=through)
+        return [r for r in return_blocks(fn) if r in live and r not in through]
+
+    def holds(self, fn, depth=None, stack=()):
+        depth = self.depth if depth is None else depth
+        k = (fn.id, depth)
+        if k not in self.memo:
+            self.memo[k] = False
+            self.memo[k] = bool(return_blocks(fn)) and not self.escaping(fn, depth, stack)
+        return self.memo[k]
+
+
 # ---------------------------------------------------------------- operands / places
 
 
@@ -260,6 +318,12 @@ def local_ty(fn, l):
 
 def local_name(fn, l):
     return fn.locals[l].get("name")
+
+
+def param_index(fn, ty_part):
+    """0-based index (self = 0) of the unique parameter whose type contains `ty_part`, or None"""
+    hit = [i - 1 for i in range(1, fn.argc + 1) if ty_part in (local_ty(fn, i) or "")]
+    return hit[0] if len(hit) == 1 else None
 
 
 class DefUse:
